@@ -526,6 +526,9 @@ class Facts:
         with open(path) as f:
             self.j = json.load(f)
         self.repo = repo
+        # new private helpers (not among the reviewed tree's functions) are expanded into their callers
+        from .inline import inline_new_helpers
+        self.inlined = inline_new_helpers(self.j)
         self.adts = self.j["adts"]
         self.consts = self.j["consts"]
         self.impls = self.j["impls"]
